@@ -294,6 +294,7 @@ def hole(entry, cname, ti, L):
 
 
 def jobs(tier, seed):
+    _pre = [Job("inst-validate", "harness.egcommon:validate_instrumented_keys")]
     Lmax = 6 if tier == "quick" else 8
     js = []
     small = "SECP112r1"
@@ -318,7 +319,7 @@ def jobs(tier, seed):
                 for L in range(0, (5 if tier == "quick" else 7)):
                     js.append(Job("hole/%s/%s/%d/L%d" % (cname, e, ti, L), "harness.c10:hole",
                                   entry=e, cname=cname, ti=ti, L=L))
-    return js
+    return _pre + js
 
 
 _ENTRY_NAMES = ["ecdh_pub_bytes_nocurve", "ecdh_priv_bytes_nocurve", "vk_from_string", "vk_from_der", "vk_from_pem", "sk_from_string", "sk_from_der",
